@@ -187,10 +187,17 @@ def Node.clearLoc (nd : Node) : Node := { nd with loc := none }
 def Node.setLoc (l : LSession) (nd : Node) : Node := { nd with loc := some l }
 def Node.addSession (s : RSession) (nd : Node) : Node := { nd with rem := nd.rem ++ [s] }
 def Node.addUser (w : User) (nd : Node) : Node := { nd with users := nd.users ++ [w] }
+/-- `self.users[u].<field> = ...`: the dictionary entry of `u`, i.e. the first (and, since `add_user` refuses
+duplicates, only) user of that name -/
+def updUser (l : List User) (u : String) (f : User → User) : List User :=
+  match l with
+  | [] => []
+  | v :: t => if v.name == u then f v :: t else v :: updUser t u f
+
 def Node.setDisabled (u : String) (nd : Node) : Node :=
-  { nd with users := nd.users.map (fun v => if v.name == u then { v with disabled := true } else v) }
+  { nd with users := updUser nd.users u (fun v => { v with disabled := true }) }
 def Node.setPassword (u new : String) (nd : Node) : Node :=
-  { nd with users := nd.users.map (fun v => if v.name == u then { v with password := new } else v) }
+  { nd with users := updUser nd.users u (fun v => { v with password := new }) }
 def Node.addFile (k : Nat) (nd : Node) : Node := { nd with files := nd.files ++ [k] }
 
 /-- fresh-id counter -/
